@@ -58,7 +58,7 @@ class G:
         raise ValueError(s)
 
     # ---- unit complex numbers ----
-    U2_STRATA = ["id", "half_turn", "quarter", "tiny", "near_pi", "generic", "neg_generic"]
+    U2_STRATA = ["id", "half_turn", "quarter", "tiny", "smallish", "near_pi", "generic", "neg_generic"]
     def unit2(self, stratum=None, nopi=False):
         s = stratum or self.r.choice([x for x in self.U2_STRATA if not (nopi and x == "half_turn")])
         self.note("unit2:" + s)
@@ -66,6 +66,7 @@ class G:
         if s == "half_turn": return [Fr(-1), Fr(0)]
         if s == "quarter": return self.r.choice([[Fr(0), Fr(1)], [Fr(0), Fr(-1)]])
         if s == "tiny": t = Fr(self.r.randint(-9, 9) or 1, 2**self.r.choice([20, 27, 40, 300]))
+        elif s == "smallish": t = Fr(self.r.randint(-9, 9) or 1, 2**self.r.randint(5, 17))      # rotation angle 2 atan t: log-uniform over about 1e-4 .. 0.5 (between "tiny" and "generic")
         elif s == "near_pi": t = Fr(2**self.r.choice([20, 27, 40]), self.r.randint(-9, 9) or 1)
         elif s == "generic": t = Fr(self.r.randint(-40, 40), self.r.randint(41, 99))
         else: t = Fr(self.r.randint(41, 99) * self.r.choice([1, -1]), self.r.randint(1, 40))
@@ -86,7 +87,7 @@ class G:
         return [c[0] * k, c[1] * k]
 
     # ---- unit quaternions [x,y,z,w] ----
-    U4_STRATA = ["id", "neg_id", "w0", "tiny", "tiny_neg", "near_pi", "generic_pos", "generic_neg", "axis"]
+    U4_STRATA = ["id", "neg_id", "w0", "tiny", "tiny_neg", "smallish", "smallish_neg", "near_pi", "generic_pos", "generic_neg", "axis"]
     def unit4(self, stratum=None, nopi=False):
         s = stratum or self.r.choice([x for x in self.U4_STRATA if not (nopi and x == "w0")])
         self.note("unit4:" + s)
@@ -99,6 +100,10 @@ class G:
             k = self.r.choice([20, 26, 27, 40, 300])
             u = [Fr(self.r.randint(-9, 9), 2**k) for _ in range(3)]
             if all(a == 0 for a in u): u[0] = Fr(1, 2**k)
+        elif s in ("smallish", "smallish_neg"):      # rotation angle about 2|u|: log-uniform over about 1e-4 .. 0.5, either hemisphere
+            k = self.r.randint(5, 17)
+            u = [Fr(self.r.randint(-9, 9), 2**k) for _ in range(3)]
+            if all(a == 0 for a in u): u[0] = Fr(1, 2**k)
         elif s == "near_pi":
             k = self.r.choice([10, 20, 27])
             u = self.r.choice([[1, 0, 0], [0, 1, 0], [Fr(3, 5), Fr(4, 5), 0]]); u = [Fr(a) * (1 + Fr(self.r.choice([1, -1]), 2**k)) for a in u]
@@ -108,7 +113,7 @@ class G:
             i = self.r.randrange(3); u = [Fr(0)] * 3; u[i] = Fr(self.r.randint(-30, 30) or 1, self.r.randint(1, 30))
         n2 = sum(a * a for a in u); d = 1 + n2
         q = [2 * a / d for a in u] + [(1 - n2) / d]
-        if s == "tiny_neg": q = [-a for a in q]
+        if s in ("tiny_neg", "smallish_neg"): q = [-a for a in q]
         if nopi and q[3] == 0: return self.unit4("generic_pos")     # exactly a half turn: excluded on request
         return q
     NU4_STRATA = ["eps_exact", "eps_just_below", "eps_just_above", "taylor_at", "taylor_below", "taylor_above", "taylor_neg_w", "scaled"]
